@@ -78,6 +78,15 @@ def main():
                        f"then run_check.py <prop> --tier {tier} with VERIF_REPO=<worktree>)",
                 "repo_head": sh(["git", "-C", "/repo", "rev-parse", "--short", "HEAD"]).stdout.strip(),
                 "checks": {k: {"detected": v["exit"] == 1, "exit": v["exit"], "wall_s": v["wall_s"], "first_lines": v["lines"][:4]} for k, v in out["checks"].items()}}
+        old_meta = os.path.join(d, "meta.json")
+        if os.path.exists(old_meta):
+            try:
+                prev = json.load(open(old_meta))
+                for keep in ("neutralised", "history"):
+                    if keep in prev:
+                        meta[keep] = prev[keep]
+            except ValueError:
+                pass
         with open(os.path.join(d, "meta.json"), "w") as f:
             json.dump(meta, f, indent=1)
     print(json.dumps(out, indent=1))
